@@ -14,6 +14,7 @@ CLASS_HOME = {
     'Driver': 'openmdao/core/driver.py',
     'PhysicalUnit': 'openmdao/utils/units.py',
     'FiniteDifference': 'openmdao/approximation_schemes/finite_difference.py',
+    '_SubHelper': 'openmdao/utils/file_wrap.py',
     'ComplexStep': 'openmdao/approximation_schemes/complex_step.py',
     'OptionsDictionary': 'openmdao/utils/options_dictionary.py',
     'Autoscaler': 'openmdao/drivers/autoscalers/autoscaler.py',
@@ -36,6 +37,7 @@ PROPERTY_MODULES = {
     'C25': ['contracts.c25_ks'],
     'C12': ['contracts.c12_approx'],
     'C08': ['contracts.c08_scaling'],
+    'C29': ['contracts.c29_filewrap'],
 }
 
 # modules whose contracts may be used as callee contracts by any property
@@ -65,6 +67,7 @@ PROPERTY_ASSUMPTIONS = {
             'assumed: _iter_get_norm returns NaN or a value >= 0; _single_iteration and _run_apply neither raise nor modify solver control state'],
 }
 GAPS = {
+    'C29': ['write->read round trip through re/pyparsing: bounded exhaustive tier only', 'transfer_2Darray, transfer_keyvar, anchors with occurrence != 1', 'string values containing delimiters'],
     'C08': ['System/Group._compute_root_scale_factors (how a0, a1, factor, offset are derived from metadata)', 'System._scaled_context_all / _unscaled_context around every user callback', 'DefaultVector._allocate_scaling_data sharing between linear and nonlinear vectors', 'converged outputs and total derivatives of whole models under different ref/ref0/res_ref (solver numerics)'],
     'C12': ['truncation error for non-polynomial functions', 'step_calc=rel_element and directional options', 'compute_approx_col_iter generator (save / finally restore of FD mode)', 'colored approximation equals uncolored (C03)', 'ComplexStep: outputs/residuals after a point, nested complex-step fallback to FD', 'approximated totals'],
     'C25': ['KSfunction.compute/derivatives and KSComp.compute/compute_partials: bounded exhaustive tier only', 'exact gradients of jax ks_max/ks_min (jax AD)', 'exp overflow for huge rho*(g-m) is excluded by the shift but floats are treated as reals'],
@@ -196,3 +199,22 @@ def _c25_extra(tier, seed, native_run):
 
 
 EXTRA_TIERS['C25'] = _c25_extra
+
+
+def _c29_extra(tier, seed, native_run):
+    out = {'violations': [], 'errors': []}
+    r = _run_bounded('c29_filewrap.py', [tier])
+    if 'error' in r:
+        out['errors'].append('bounded file-wrap tier could not run: ' + r['error'])
+        return out
+    out['bounded_filewrap_roundtrip'] = {
+        'note': 'BOUNDED stand-in (not counted in obligations): InputFileGenerator.transfer_var/transfer_array -> FileParser.transfer_var/transfer_array round trip (re + pyparsing are outside the subset)',
+        'bound': 'templates <=3 lines x <=4 fields, delimiters {space, comma}, every field position, 22 values incl. +-inf, nan, denormal, max float; arrays of length <=3 at every start',
+        'evaluations': r['evaluations'], 'distinct_nontrivial': r['distinct_nontrivial'], 'exhaustive': True,
+        'failures': r['n_failures'], 'samples': r['samples']}
+    for f in r['failures'][:3]:
+        out['violations'].append(dict(f, what='file wrap round trip: ' + f['kind'], witness_id='c29-%s' % json_key(f)))
+    return out
+
+
+EXTRA_TIERS['C29'] = _c29_extra
